@@ -424,6 +424,8 @@ pub enum Script {
     KindOther,
     /// an error without OS code, of one of the kinds the error mapping names
     Kind(std::io::ErrorKind),
+    /// success with a negative entry (inode 0, timeouts set): a cacheable "does not exist"
+    Negative,
 }
 
 impl Script {
@@ -441,6 +443,7 @@ impl Script {
             Script::OkBig => "ok-big",
             Script::Enoent => "err-enoent",
             Script::KindOther => "err-kind-other",
+            Script::Negative => "ok-negative-entry",
             Script::Kind(std::io::ErrorKind::NotFound) => "err-kind-notfound",
             Script::Kind(std::io::ErrorKind::PermissionDenied) => "err-kind-permissiondenied",
             Script::Kind(std::io::ErrorKind::AlreadyExists) => "err-kind-alreadyexists",
@@ -449,7 +452,7 @@ impl Script {
         }
     }
     pub fn from_name(s: &str) -> Script {
-        *Script::ALL.iter().chain(Script::KINDS.iter()).find(|x| x.name() == s).unwrap()
+        *Script::ALL.iter().chain(Script::KINDS.iter()).chain([Script::Negative].iter()).find(|x| x.name() == s).unwrap()
     }
     pub fn answer(&self) -> Answer {
         use crate::scriptfs::{DirAns, Fail};
@@ -476,6 +479,13 @@ impl Script {
             Script::Enoent => a.fail = Some(Fail::Errno(libc::ENOENT)),
             Script::KindOther => a.fail = Some(Fail::Kind(std::io::ErrorKind::Other)),
             Script::Kind(kd) => a.fail = Some(Fail::Kind(*kd)),
+            Script::Negative => {
+                a.data = b"small-data".to_vec();
+                a.dirents = dirents(3);
+                a.entry.inode = 0;
+                a.entry.entry_timeout = std::time::Duration::new(3, 250_000_000);
+                a.entry.attr_timeout = std::time::Duration::new(7, 5);
+            }
         }
         a
     }
@@ -1603,6 +1613,53 @@ fn c03_dir(rig: &mut Rig, rep: &mut Report, idx: &mut u64, thorough: bool) {
             }
         }
     }
+    // a fault in the middle of the walk: the filesystem returns an error after n entries were accepted.
+    // "What the filesystem returned" is then the error: the reply is the bare header with -errno.
+    for plus in [false, true] {
+        let op = if plus { k::FUSE_READDIRPLUS } else { k::FUSE_READDIR };
+        let dirents = mk(&[8, 8, 1, 255, 8, 8]);
+        for fail_after in 0..=5usize {
+            for errno in [libc::EIO, libc::ESTALE, libc::ENOENT] {
+                for size in [40u32, 200, 4096] {
+                    for tr in [Tr::Sep(size as usize + 16), Tr::Chan, virt_simple(size as usize + 16, false)] {
+                        if rep.mine(*idx) {
+                            rep.eval();
+                            rep.transitions += 1;
+                            let mut c = wf_case(op);
+                            c.f.insert("size", size as u64);
+                            let bytes = c.req().bytes();
+                            let mut ans = Answer::default();
+                            ans.dirents = dirents.clone();
+                            ans.dir_fail_after = Some((fail_after, errno));
+                            let (ex, _log) = rig.run(&bytes, &tr, ans);
+                            let results = rig.fs.dir_results();
+                            let (recs, mut problems) = client_view(&tr, &ex);
+                            let opn = ops::op_name(op);
+                            // the filesystem fails only if the walk got as far as entry `fail_after`
+                            let reached = results.len() >= fail_after && results.iter().all(|(_, r)| matches!(r, Ok(n) if *n > 0));
+                            if recs.len() != 1 {
+                                problems.push(("reply-count".into(), format!("{} replies", recs.len())));
+                            } else if let Ok(r) = wire::parse_reply(&recs[0]) {
+                                if reached {
+                                    if r.error != -errno || !r.body.is_empty() {
+                                        problems.push(("error-swallowed".into(), format!("the filesystem failed with errno {} after accepting {} entries; the reply says error {} with {} bytes of entries", errno, fail_after, r.error, r.body.len())));
+                                    }
+                                } else if r.error != 0 {
+                                    problems.push(("unexpected-error".into(), format!("error {} although the walk stopped (buffer full) before the fault", r.error)));
+                                }
+                            }
+                            rep.outcome(&format!("{}:dir-fault:{}:{}", opn, if reached { "fault-reached" } else { "full-before-fault" }, if problems.is_empty() { "ok" } else { "MISMATCH" }));
+                            rep.state_of(&("dir-fault", op, fail_after, errno, size, tr.label()));
+                            for (class, msg) in problems {
+                                rep.violation(&format!("C03/{}/dir-{}", opn, class), &msg, || json!({"engine": "c03-dir-fault", "op": opn, "size": size, "fail_after": fail_after, "errno": errno, "transport": tr.to_replay()}));
+                            }
+                        }
+                        *idx += 1;
+                    }
+                }
+            }
+        }
+    }
     // the production channel with its fixed buffer
     for plus in [false, true] {
         let op = if plus { k::FUSE_READDIRPLUS } else { k::FUSE_READDIR };
@@ -1919,6 +1976,48 @@ pub fn c03(args: &Args) -> Report {
             rep.outcome(&format!("entry-differential:{}", enc.len()));
         }
         idx += 1;
+    }
+    // negative entries (inode 0 with timeouts): a cacheable "does not exist" for every protocol version from 7.4,
+    // ENOENT before that; the version is the one negotiated by an INIT on the same server (none: the library's own)
+    for minor in [None, Some(0u32), Some(3), Some(4), Some(5), Some(8), Some(9), Some(22), Some(23), Some(31), Some(32), Some(33), Some(38), Some(u32::MAX)] {
+        for tr in [Tr::Sep(8192), virt_simple(8192, false)] {
+            if rep.mine(idx) {
+                rep.eval();
+                rep.transitions += 2;
+                rig.fresh_server();
+                if let Some(m) = minor {
+                    let _ = rig.run(&init_req(7, m, u64::MAX & !(1 << 31), Ext::Present, 0x20000), &tr, Answer::default());
+                }
+                let c = wf_case(k::FUSE_LOOKUP);
+                let (ex, _log) = rig.run(&c.req().bytes(), &tr, Script::Negative.answer());
+                let (recs, mut problems) = client_view(&tr, &ex);
+                let old = matches!(minor, Some(m) if m < 4);
+                match recs.first().map(|r| wire::parse_reply(r)) {
+                    Some(Ok(r)) => {
+                        if old {
+                            if r.error != -libc::ENOENT || !r.body.is_empty() {
+                                problems.push(("negative-entry-before-7.4".into(), format!("minor {:?}: a negative entry must be answered with ENOENT, got error {} with {} body bytes", minor, r.error, r.body.len())));
+                            }
+                        } else if r.error != 0 || r.body.len() != k::FUSE_ENTRY_OUT.size {
+                            problems.push(("negative-entry".into(), format!("minor {:?}: a negative entry (inode 0, entry timeout 3.25 s) was answered with error {} and {} body bytes instead of a fuse_entry_out with nodeid 0", minor, r.error, r.body.len())));
+                        } else {
+                            let g = |f: &str| wire::get(&r.body, &k::FUSE_ENTRY_OUT, f);
+                            if g("nodeid") != 0 || g("entry_valid") != 3 || g("entry_valid_nsec") != 250_000_000 || g("attr_valid") != 7 || g("attr_valid_nsec") != 5 {
+                                problems.push(("negative-entry-fields".into(), format!("minor {:?}: nodeid {} entry_valid {}.{} attr_valid {}.{}", minor, g("nodeid"), g("entry_valid"), g("entry_valid_nsec"), g("attr_valid"), g("attr_valid_nsec"))));
+                            }
+                        }
+                    }
+                    other => problems.push(("no-reply".into(), format!("minor {:?}: {:?}", minor, other.map(|x| x.map(|y| y.error))))),
+                }
+                rep.outcome(&format!("negative-entry:{}:{}", if old { "before-7.4" } else { "7.4+" }, if problems.is_empty() { "ok" } else { "MISMATCH" }));
+                rep.state_of(&("negative-entry", minor, tr.label()));
+                for (class, msg) in problems {
+                    rep.violation(&format!("C03/FUSE_LOOKUP/{}", class), &msg, || json!({"engine": "c03-negative", "minor": minor, "transport": tr.to_replay()}));
+                }
+                rig.fresh_server();
+            }
+            idx += 1;
+        }
     }
     // errors: every errno and every non-OS kind on every replying opcode
     let mut fails: Vec<Fail> = (1..=133).map(Fail::Errno).collect();
